@@ -623,9 +623,13 @@ func (m *Manager) readIntoTable(id uint64, reader io.Reader) error {
 
 			batchCmd.Table = cmd.Table
 			batchCmd.LeaderIndex = cmd.LeaderIndex
+			// Every record belongs to a batch, also the one that crosses the size threshold.
+			// Commands without a pair (the final DUMMY carrying the leader index) add only the index.
+			if cmd.Kv != nil {
+				batchCmd.Batch = append(batchCmd.Batch, cmd.Kv)
+			}
 
 			if uint64(estimatedSize) < m.cfg.Table.MaxInMemLogSize/2 {
-				batchCmd.Batch = append(batchCmd.Batch, cmd.Kv)
 				continue
 			}
 		}
